@@ -71,6 +71,14 @@ def tableSetC (cfg : Cello.Table.Cfg) (hash : Nat → Nat) (next : Nat) (t : CTa
     | .error f => .error f
     | .ok t' => .ok { val := t', issued := [kt, vt], retired := retiredOf old }
 
+/-- `Table_Set` refused by the `cast` at the top of `Table_Set_Move` (wrong-typed key or value): nothing is constructed and
+    no record moves into or out of the table, but `Table_Set` has already grown a table without slots to
+    `Table_Ideal_Size(0)` (`Table_Rehash` of no records: the only thing that changes is `nslots`). -/
+def tableSetRefusedC (cfg : Cello.Table.Cfg) (hash : Nat → Nat) (t : CTab) : Except Cello.Table.Fail (Res CTab) :=
+  match (if t.n = 0 ∧ cfg.growEmpty then Cello.Table.rehash cfg hash t (cfg.ideal 0) else .ok t) with
+  | .error f => .error f
+  | .ok t' => .ok { val := t', out := .raised .valueError }
+
 /-- `Table_Rem`: KeyError when the probing loop finds nothing; otherwise the found key and value are destructed, the
     following records are shifted back, and `Table_Resize_Less` may rehash into a smaller array. -/
 def tableRemC (cfg : Cello.Table.Cfg) (hash : Nat → Nat) (t : CTab) (k : Nat) : Except Cello.Table.Fail (Res CTab) :=
